@@ -150,7 +150,10 @@ pub fn run_batch(sub: &str, file: &str, n: usize, cpu_limit_ms: u64, wall_limit_
             handle(line, &mut cur, &mut cur_lines, &mut results, &mut from);
         }
         let err = t_err.join().unwrap_or_default();
-        let stderr: String = String::from_utf8_lossy(&err).chars().take(300).collect();
+        // the tail: what the child printed last is what killed it
+        let all = String::from_utf8_lossy(&err);
+        let skip = all.chars().count().saturating_sub(500);
+        let stderr: String = all.chars().skip(skip).collect();
         let (status, code): (&'static str, i32) = if timed_out {
             ("timeout", 0)
         } else {
@@ -193,6 +196,20 @@ pub fn scratch_tmpdir() -> tempfile::TempDir {
     // Safety: called at the start of main, before other threads exist.
     unsafe { std::env::set_var("TMPDIR", dir.path()) };
     dir
+}
+
+/// Panic hook of the children: one line (location and message) instead of a
+/// backtrace, so that the parent can classify a panic that kills the process
+/// (non-unwinding panics of std's debug assertions). `VH_LOUD=1` keeps the
+/// default hook for triage.
+pub fn terse_panics() {
+    if std::env::var("VH_LOUD").is_ok() {
+        return;
+    }
+    std::panic::set_hook(Box::new(|info| {
+        let msg: String = info.to_string().chars().map(|c| if c == '\n' { ' ' } else { c }).take(240).collect();
+        eprintln!("PANIC {msg}");
+    }));
 }
 
 /// Child side: run `handler(item)` for the items `from..` of the batch file.
